@@ -413,7 +413,8 @@ def run_property(prop, module, theorems, tier, seed, nquick, nthorough, feature_
                 ok, why = False, 'reported times differ from the per-activation specification'
         if aspect == 'mono':
             ok, why = snaps_wf_monotone(o)
-        if ok and aspect in ('hits', 'time'):
+        if ok and aspect in ('hits', 'time') and not outside and 'selfdisable' not in p['features']:
+            # (programs whose functions switch their own profiler off legitimately run lines unprofiled)
             ok, why = wrapped_always_enabled(o)
         if p['threads']:
             if any(v != 0 for v in o.get('counts', {}).values()) or not o.get('gettrace_clear', True) or not o.get('tool_free', True):
